@@ -2,7 +2,7 @@
   C24 — Transactions see their own writes.
   Statements only (helper lemmas: Nervus.Proofs.Txn).  Model: Nervus.Model.Txn — `execute_write_in_txn` evaluates
   every statement on `db.snapshot()`, the committed state.  Reference: Nervus.Spec.TxnSem.rywStep — statement `i`
-  of a transaction evaluates on committed ⊕ staged(1..i−1).
+  of a transaction evaluates on committed ⊕ staged(1..i−1) (failed statements have no effect in both).
 -/
 import Nervus.Proofs.Txn
 namespace Nervus.Props.C24
@@ -20,7 +20,7 @@ abbrev read_your_writes := C24_full
 theorem C24_partial (σ : State) (w : Option (List Nat)) (ops : List Op) (ht : Tracks σ w)
     (htrig : readsOwnWrites w ops = false) : codeRun σ ops = rywRun σ ops := by
   rw [codeRun_def]
-  exact ryw_run_eq false ops σ w ht htrig
+  exact ryw_run_eq true ops σ w ht htrig
 
 /-- from the empty database (or any state without an open transaction) the tracker starts at `none` -/
 theorem C24_partial_init (ops : List Op) (htrig : readsOwnWrites none ops = false) :
@@ -33,10 +33,10 @@ theorem stmt_reads_only_its_label (g : Graph) (ps : List Prim) (n : Nat) (s : St
     (h : ∀ l, s.reads = some l → ∀ p ∈ ps, p.lbl ≠ l) : exec (applyAll g ps) n s = exec g n s :=
   exec_frame g ps n s h
 
-/-- the same holds together with statement atomicity (the two repairs are independent) -/
+/-- the same held on the pinned tree, before failed statements were made atomic (the two repairs are independent) -/
 theorem ryw_independent_of_atomicity (ops : List Op) (htrig : readsOwnWrites none ops = false) :
-    atomicRun State.init ops = idealRun State.init ops :=
-  ryw_run_eq true ops State.init none Tracks.init htrig
+    legacyRun State.init ops = legacyRywRun State.init ops :=
+  ryw_run_eq false ops State.init none Tracks.init htrig
 
 /-! ### non-vacuity: a transaction with several statements on different labels, then one on a fresh label -/
 
